@@ -254,6 +254,70 @@ def run(ctx):
                                     ctx.violation(sig, "%s(%s, %s) with the symbolic operand = %#x is built as %s and denotes %s; SMT-LIB gives %s" % (
                                         op, rm, "x, %#x" % lit if pos == 0 else "%#x, x" % lit, xv, built.op, P.fmt_res(got), P.fmt_res(want)),
                                         {"kind": "built", "op": op, "fmt": fmt, "rm": rm, "lit": lit, "pos": pos, "x": xv})
+    # ---------------------------------------------------------------- 4d. comparisons of two SYMBOLIC operands under Boolean structure
+    # Not / And / Or / If over float comparisons are rewritten by the Boolean simplifiers (negation tables, complement
+    # detection): the expression claripy builds, with both symbols pinned to boundary patterns (NaN, zeros of both signs,
+    # infinities), must have the truth value SMT-LIB gives the written formula — comparisons with NaN are all false, so a
+    # comparison and its "opposite" are not complements
+    n_bool = 0
+    for fmt in "FD":
+        S, W = P.sort_obj(fmt), P.WIDTH[fmt]
+        eb_, sb_ = P.FMT[fmt]
+        sign, one = 1 << (W - 1), ((1 << (eb_ - 1)) - 1) << (sb_ - 1)
+        inf_, nan_ = ((1 << eb_) - 1) << (sb_ - 1), (((1 << eb_) - 1) << (sb_ - 1)) | (1 << (sb_ - 2))
+        vals = [0, sign, one, one | sign, inf_, inf_ | sign, nan_, one + 1]
+        xb, yb = claripy.BVS("c02_bx", W), claripy.BVS("c02_by", W)
+        xf, yf = xb.raw_to_fp(), yb.raw_to_fp()
+        zx, zy = bzb.convert(xb), bzb.convert(yb)
+        cmps = [c for c in P.OPS_CMP if hasattr(claripy, c)]
+
+        def atom(rng_):
+            c = rng_.choice(cmps + ["==", "!="])
+            l, r = rng_.choice([(xf, yf), (yf, xf), (xf, xf), (xf, P.real_fpv(fmt, rng_.choice(vals))), (P.real_fpv(fmt, rng_.choice(vals)), yf)])
+            return (l == r) if c == "==" else (l != r) if c == "!=" else getattr(claripy, c)(l, r)
+        for it in range(ctx.pick(120, 1500)):
+            rng_ = ctx.rng
+            shape = rng_.choice(["not", "not", "notnot", "and", "or", "ite", "not-and", "not-or"])
+            a1, a2 = atom(rng_), atom(rng_)
+            try:
+                za1, za2 = bzb.convert(a1), bzb.convert(a2)       # atoms are translated as they are (checked by sections 1-3)
+                if shape == "not":
+                    built, written = claripy.Not(a1), _z3.Not(za1)
+                elif shape == "notnot":
+                    built, written = claripy.Not(claripy.Not(a1)), za1
+                elif shape == "and":
+                    built, written = claripy.And(a1, claripy.Not(a2)), _z3.And(za1, _z3.Not(za2))
+                elif shape == "or":
+                    built, written = claripy.Or(claripy.Not(a1), a2), _z3.Or(_z3.Not(za1), za2)
+                elif shape == "ite":
+                    built, written = claripy.If(claripy.Not(a1), a2, claripy.Not(a2)), _z3.If(_z3.Not(za1), za2, _z3.Not(za2))
+                elif shape == "not-and":
+                    built, written = claripy.Not(claripy.And(a1, a2)), _z3.Not(_z3.And(za1, za2))
+                else:
+                    built, written = claripy.Not(claripy.Or(a1, a2)), _z3.Not(_z3.Or(za1, za2))
+                zb = bzb.convert(built)
+            except Exception as ex:  # noqa
+                ctx.violation("C02/boolean-structure/%s/raised:%s" % (shape, type(ex).__name__), "%s over %r, %r cannot be built/translated: %s" % (shape, a1, a2, str(ex)[:100]),
+                              {"kind": "bool", "shape": shape})
+                continue
+            bad = None
+            for xv in vals:
+                for yv in vals:
+                    sub = ((zx, _z3.BitVecVal(xv, W, z.ctx)), (zy, _z3.BitVecVal(yv, W, z.ctx)))
+                    got, want = z.value(_z3.substitute(zb, *sub)), z.value(_z3.substitute(written, *sub))
+                    ctx.count(); n_bool += 1
+                    if got != want and want[0] == "b":
+                        bad = (xv, yv, got, want); break
+                if bad:
+                    break
+            if bad:
+                sig = "C02/boolean-structure/%s/%s" % (shape, a1.op)
+                if sig not in reported:
+                    reported.add(sig)
+                    ctx.violation(sig, "%s over %r, %r is built as %r; with x = %#x, y = %#x it is %s, the written formula is %s" % (
+                        shape, a1, a2, built, bad[0], bad[1], bad[2][1] if bad[2][0] == "b" else bad[2], bad[3][1]),
+                        {"kind": "bool", "shape": shape, "fmt": fmt, "a1": repr(a1), "a2": repr(a2), "x": bad[0], "y": bad[1]})
+    ctx.cov["boolean_structure_evaluations"] = n_bool
     ctx.cov["built_expression_evaluations"] = n_built
     # ---------------------------------------------------------------- 5. symbolic side end to end (sample)
     n = ctx.pick(60, 600)
